@@ -100,3 +100,27 @@ Proof.
   destruct (S1 v) as [[A1 A2] [A3 A4]]. destruct S2 as [[B1 B2] [B3 B4]].
   split; split; auto.
 Qed.
+
+(* ---------- a choice spelled as a base rule plus "/=" increments (or as plugs of a socket) ---------- *)
+From Cddl Require Import Sem.Identities.
+Definition increments (base : ty) (incs : list ty) : ty := fold_left TOr incs base.
+
+Theorem increments_match jm e : forall incs base v,
+  MatchT jm e (increments base incs) v <-> MatchT jm e base v \/ Exists (fun a => MatchT jm e a v) incs.
+Proof.
+  induction incs as [|a incs IH]; intros base v; cbn [increments fold_left].
+  - split; [intros H; left; exact H|intros [H|H]; [exact H|inversion H]].
+  - fold (increments (TOr base a) incs). rewrite IH, choice_or. split.
+    + intros [[H|H]|H]; [left; exact H|right; left; exact H|right; right; exact H].
+    + intros [H|H]; [left; left; exact H|]. inversion H; subst; [left; right; assumption|right; assumption].
+Qed.
+
+Theorem increments_fail jm e : forall incs base v,
+  FailT jm e (increments base incs) v <-> FailT jm e base v /\ Forall (fun a => FailT jm e a v) incs.
+Proof.
+  induction incs as [|a incs IH]; intros base v; cbn [increments fold_left].
+  - split; [intros H; split; [exact H|constructor]|intros [H _]; exact H].
+  - fold (increments (TOr base a) incs). rewrite IH, choice_fail. split.
+    + intros [[H1 H2] H3]. split; [exact H1|constructor; assumption].
+    + intros [H1 H2]. inversion H2; subst. split; [split; assumption|assumption].
+Qed.
